@@ -75,7 +75,8 @@ fn build_barrier(raw: &Raw, droppable: bool) -> Scenario {
     for i in 0..lead {
         b.s.threads[st].push(Op::Stall(stall_of(knob(raw, 11).wrapping_add(i as u16 * 3))));
     }
-    if !droppable && knob(raw, 12) % 4 == 0 {
+    // close() (on a clone, for the droppable flavour) before the stop / drop
+    if knob(raw, 12) % 4 == 0 {
         b.s.threads[st].push(Op::Close { store: s });
     }
     if droppable {
@@ -326,7 +327,7 @@ pub static C04: Profile = Profile {
 
 pub static C15: Profile = Profile {
     id: "C15",
-    rule: "C04's generator with `drop(DroppableStore)` in place of stop(): 1-3 producer threads using outstanding clones of the inner handle, optional gated reducer (backlog at the drop), subscribers; afterwards dispatch through every entry point on a clone, thunk/task hand-over, stop(), get_state(). Oracle O-BARRIER with Ret(drop) as the barrier + every subscriber released exactly once + final state on clones. Non-trivial = backlog >= 1 at the drop or a dispatch on a clone racing it; distinct by scenario hash.",
+    rule: "C04's generator with `drop(DroppableStore)` in place of stop() (optionally preceded by close() on a clone): 1-3 producer threads using outstanding clones of the inner handle, optional gated reducer (backlog at the drop), subscribers; afterwards dispatch through every entry point on a clone, thunk/task hand-over, stop(), get_state(). Oracle O-BARRIER with Ret(drop) as the barrier + every subscriber released exactly once + final state on clones. Non-trivial = backlog >= 1 at the drop or a dispatch on a clone racing it; distinct by scenario hash.",
     raw,
     build: c15_build,
     check: c15_check,
